@@ -16,5 +16,10 @@ CHECKS = {
         "technique": "interval-partition abstract interpretation of the decision cascade + regex AST check + path/event analysis of the reader",
     },
 }
+CHECKS["C19"] = {
+    "text": "Per-method refinement of a map: the in-memory manager keeps exactly one dict attribute and nothing else, so if each method's effect on it (summarised on every path as put/touch/del/clear events plus the returned term) equals the map model's effect, every operation history agrees with the model by induction on its length. Decides: ids are untruncated uuid4 values; create stores one record (caller's info, version, clock timestamps) under the fresh id and returns it; get is a pure lookup; update/delete act and return True exactly under presence; expiry selects exactly now-last_activity > max_age, deletes exactly those keys and returns their count; list returns a copy and no method or outside function can alias or write the store.",
+    "note": "Static: effect summaries by all-paths abstract interpretation. Assumes dict semantics and that uuid4 values do not collide (probability, not decidable statically). Histories are covered by the refinement argument, not enumerated.",
+    "technique": "per-method effect summaries (all-paths abstract interpretation) compared with a map specification; who-may-write check",
+}
 
 NOT_APPLICABLE = {f"C{i:02d}": PENDING for i in range(1, 21)}
